@@ -32,7 +32,11 @@ LEVEL_TEXT = ("Theorems (Lean 4, any linearly ordered field) about the executabl
               "interpolation data, rectifier mode, stored _params and applicable limits (`reload_comp`, `reload_source`, `reload_pmux`: "
               "all 11 kinds, diode Rectifier included since F14 was repaired); a description whose layout lists every component once "
               "with its parent loaded first reloads to the same components under the same ordered parents with the same name, phases, "
-              "phase configurations, groups and rails (`roundtrip_partial`); the version gate refuses exactly the newer N.N.N versions. "
+              "phase configurations, groups and rails (`roundtrip_partial`), and Props/C12Layout proves that layout condition for EVERY well-formed "
+              "description (distinct names, a valid topological order, existing parents, roots = Sources, one PMux, loads childless): the breadth-first "
+              "walk of save() lists each component outside the PMux subtree exactly once below its one Source with its parent first, the PMux block comes "
+              "after all its inputs with exactly its descendants, the fuel of the walk suffices (`saveable_of_wf`, `layout_of_wf`), hence "
+              "`roundtrip_wf_partial`: from_file(save(S)) is S, partial ONLY through the reserved name `system` (F15); the version gate refuses exactly the newer N.N.N versions. "
               "The full statement `C12_full` is refuted on a concrete witness (`full_fails_reserved_name`: a Source named \"system\", "
               "finding F15). Model tied to the code on every run: the saved JSON of hundreds of random systems must equal the model's "
               "document, and the reloaded system's second save and params(limits=True) must equal the model's from_file.")
@@ -54,7 +58,13 @@ THEOREMS = [
     "SysLoss.C12.version_gate_not_newer",
     "SysLoss.C12.save_version_accepted",
     "SysLoss.C12.verLt_strict_total",
+    # Props/C12Layout: the layout hypothesis of the round trip proved for every well-formed description (BFS of save())
+    "SysLoss.C12.saveable_of_wf", "SysLoss.C12.layout_of_wf", "SysLoss.C12.saveable_of_wf_nomux", "SysLoss.C12.roundtrip_wf_partial",
+    "SysLoss.C12.wf_full_fails_reserved_name", "SysLoss.C12.bfsAux_inv", "SysLoss.C12.bfsAux_complete", "SysLoss.C12.bfs_entry",
+    "SysLoss.C12.bfs_closed", "SysLoss.C12.entriesOK_bfsAux", "SysLoss.C12.reach_unique", "SysLoss.C12.srcBlocks_complete",
+    "SysLoss.C12.muxBlock_ok", "SysLoss.C12.eSys_wf", "SysLoss.C12.wSys_wf",
 ]
+MODULES = ["SysLoss.Props.C12", "SysLoss.Props.C12Layout"]
 RULE = ("random power trees from gen.gen_system (1-3 sources, <=24 nodes, all 11 kinds, tabulated eff/vdrop/ig 1-D and 2-D, PMux rs lists, "
         "deprecated LinReg iq, loss flags, rt, limits on applicable keys, groups, rails, system phases, component phase configurations), "
         "saved to and reloaded from real files in a temporary directory; plus streams: version strings below/equal/above, documents with "
